@@ -342,6 +342,52 @@ func runC04(c *Ctx) {
 			}
 		}
 	}
+	// headers taken from a decoded hash envelope, algorithm changed in the parsed map, handed to
+	// SignHashEnvelope with a signer of the new algorithm (the retained raw bytes still name the old one):
+	// the producer discards caller-supplied raw protected bytes, so the signed and emitted alg is the signer's
+	for _, oldAlg := range []cose.Algorithm{cose.AlgorithmES256, cose.AlgorithmEdDSA} {
+		for _, newAlg := range []cose.Algorithm{cose.AlgorithmES384, cose.AlgorithmPS256, cose.AlgorithmES256} {
+			for _, extras := range []bool{false, true} {
+				prot := refcbor.NMap(refcbor.NInt(1), refcbor.NInt(int64(oldAlg)), refcbor.NInt(258), refcbor.NInt(-16))
+				if extras {
+					prot.Kids = append(prot.Kids, refcbor.NInt(259), refcbor.NTstr("text/plain"), refcbor.NInt(260), refcbor.NTstr("loc"))
+				}
+				wm := &gen.WSign1{L: gen.WLayer{ProtMap: prot, Unprot: refcbor.NMap()}, Payload: make([]byte, 32), Sig: mon.FixedSig, Tagged: true}
+				var d cose.Sign1Message
+				if d.UnmarshalCBOR(wm.Bytes()) != nil {
+					continue
+				}
+				d.Headers.Protected.SetAlgorithm(newAlg)
+				pl := cose.HashEnvelopePayload{HashAlgorithm: cose.AlgorithmSHA256, HashValue: make([]byte, 32)}
+				if extras {
+					pl.PreimageContentType, pl.Location = "text/plain", "loc"
+				}
+				spy := &mon.SpySigner{Alg: newAlg}
+				cls := fmt.Sprintf("hashenv-resign/old=%d/new=%d/extras=%v", int64(oldAlg), int64(newAlg), extras)
+				in := map[string]any{"family": "decoded envelope headers re-used for a new envelope", "cell": cls}
+				var out []byte
+				var err error
+				if guard(rec, "SignHashEnvelope(decoded headers)", in, func() { out, err = cose.SignHashEnvelope(gen.Entropy, spy, d.Headers, pl) }) {
+					continue
+				}
+				rec.Eval(1)
+				rec.Class(cls)
+				for _, tbs := range spy.Got {
+					rec.Event("hashenv-resign:key-call-observed")
+					if a, has := algInTBS(tbs, 1); !has || a != int64(newAlg) {
+						rec.Violate("key-invoked", "hashenv-resign", fmt.Sprintf("a signer of alg %d was handed bytes whose protected alg is %d (present=%v)", int64(newAlg), a, has), in)
+					}
+				}
+				if err == nil {
+					if f, ok := sign1Fields(out, true); ok {
+						if a, has := algInContent(f.Layer.protContent); !has || a != int64(newAlg) {
+							rec.Violate("key-invoked", "hashenv-resign/emitted", fmt.Sprintf("the emitted envelope names alg %d, its signer was %d", a, int64(newAlg)), in)
+						}
+					}
+				}
+			}
+		}
+	}
 	// a second signing attempt on headers a first attempt has already written the algorithm into: the
 	// inserted alg binds every later signer exactly like one the caller had set
 	for _, st := range []string{"sign1", "untagged", "signature", "countersignature"} {
